@@ -270,14 +270,6 @@ end module dmod
 """
 
 
-class Sec:
-    """a section or element subscript of one array dimension"""
-
-    def __init__(self, dim, kind, lo=None, hi=None, stride=1, text=None, off=0, const=None):
-        self.dim, self.kind, self.lo, self.hi, self.stride, self.text, self.off, self.const = \
-            dim, kind, lo, hi, stride, text, off, const
-
-
 class ArrGen:
 
     def __init__(self, rng, flags):
